@@ -37,8 +37,16 @@ WH_RULE = ("histories generated from one SplitMix64 state (VERIF_SEED): insert/e
            "clone, clone_from, serde}; distinct = distinct op sequences among those.")
 
 
+def regen_all():
+    """Every translator, before anything is built: the model the theorems and the extracted driver are about is the
+    one regenerated from /repo's current source."""
+    return {"Tables": regen("translate.py", "Tables"), "Facts": regen("translate_facts.py", "Facts"),
+            "Bytes": regen("translate_bytes.py", "Bytes")}
+
+
 def wh_check(pid, tier, seed, t0):
     import wh
+    tstatus = regen_all()
     proof = check_props(pid)
     eng = wh.engine(seed, tier)
     views, with_ret, with_ev, opf = WH[pid]
@@ -144,7 +152,7 @@ def wh_check(pid, tier, seed, t0):
         "history_length": {"min": min(eng["lens"] or [0]), "max": max(eng["lens"] or [0]),
                            "mean": round(sum(eng["lens"]) / max(1, len(eng["lens"])), 1)},
         "corners_hit_cases": dict(corners), "views_compared": views, "engine_cached": eng["cached"],
-        "known_finding_hits": dict(known_hits),
+        "known_finding_hits": dict(known_hits), "translator": tstatus,
         "explanation": "theorems over the Gallina model (coq/Props/%s.v) + op-by-op correspondence of the "
                        "extracted model with the real library + spec-side oracles on the implementation trace" % pid,
     }
@@ -686,7 +694,45 @@ def cfail_check(pid, tier, seed, t0):
 
 # --------------------------------------------------------------------- dispatch
 
+def c15_sched_part(pid, tier, seed):
+    """System resource views (C15): the schedule engine's runs, judged on the resources alone."""
+    import sched
+    eng = sched.engine(seed, tier)
+    fam, cases, obs = eng["fam"], eng["cases"], eng["obs"]
+    n = 0
+    with_res = 0
+    for i, (c, ob) in enumerate(zip(cases, obs)):
+        if ob is None or "error" in ob:
+            continue
+        n += 1
+        if any(t["res"] for t in fam[c["k"]]):
+            with_res += 1
+        for (p, msg) in sched.oracle(c, ob, fam[c["k"]]):
+            if p == pid:
+                path = write_replay(pid, seed, {"property": pid, "kind": "failing-schedule-run", "message": msg,
+                                                "schedule_index": c["k"], "schedule": fam[c["k"]], "world": c["spec"],
+                                                "mode": c["mode"], "order": c["order"], "pool": c["pool"],
+                                                "observation": {k: v for k, v in (ob or {}).items() if k != "access"},
+                                                "how_to_replay": "./check %s --replay replays/%s-%s.json" % (pid, pid, seed)})
+                print("VIOLATION property=%s replay=%s" % (pid, path))
+                print("  " + msg)
+                return 1, n, with_res
+    return 0, n, with_res
+
+
 def run_check(pid, tier, seed, t0):
+    if pid == "C15":
+        rc = wh_check(pid, tier, seed, t0)
+        rc2, n, with_res = (0, 0, 0) if rc else c15_sched_part(pid, tier, seed)
+        ev = os.path.join(EVIDENCE, pid + ".json")
+        if os.path.exists(ev):
+            d = json.load(open(ev))
+            d.setdefault("coverage", {})["schedule_runs_judged_on_resources"] = n
+            d["coverage"]["schedule_runs_with_resource_views"] = with_res
+            if rc2:
+                d["violations"] = max(1, d.get("violations", 0))
+            json.dump(d, open(ev, "w"), indent=1)
+        return rc or rc2
     if pid in WH:
         return wh_check(pid, tier, seed, t0)
     if pid in ("C07", "C08", "C12"):
@@ -699,6 +745,8 @@ def run_check(pid, tier, seed, t0):
 
 
 def replay(pid, path):
+    if pid == "C15" and json.load(open(path)).get("kind") == "failing-schedule-run":
+        return replay_sched(pid, path)
     if pid in WH:
         return replay_wh(pid, path)
     if pid in ("C07", "C08", "C12"):
